@@ -5,7 +5,8 @@ import Comdex.Model.Guards
 Lines (tab separated):
   grd.begin handler scn                                                    starts a case (one delivery / dispatch / sweep)
   grd.msg   handler scn owner names admin brk esm price base outcome parentEmpty branchClean victimSame
-            owner/names/admin/brk/price/base/parentEmpty/branchClean/victimSame ∈ {0,1}; esm ∈ {none,in,after};
+            owner/names/admin/brk/base/parentEmpty/branchClean/victimSame ∈ {0,1}; esm ∈ {none,in,after};
+            price ∈ {1 (every needed price active), 0 (none), p (some)};
             outcome ∈ {ok,err,panic}
   grd.wasm  variant chain senderKind sender base outcome diffEmpty        outcome ∈ {ok,err:guard,err:inner,panic}
   grd.sweep sweep app brk esm base started appDiffEmpty                    started = number of new liquidations / auctions
@@ -23,8 +24,10 @@ def init : St := {}
 
 def b? (s : String) : Option Bool := parseBool? s
 
-def handleMsg (seq handler scn : String) (owner names admin brk : Bool) (esm : String) (price base : Bool)
+def handleMsg (seq handler scn : String) (owner names admin brk : Bool) (esm : String) (priceS : String) (base : Bool)
     (outcome : String) (parentEmpty branchClean victimSame : Bool) : List String :=
+  -- price: "1" all needed prices active, "0" none, "p" some (then WHICH lookup fails first is not known to the model)
+  let price := priceS == "1"
   match find? handler with
   | none => [s!"BAD\t{seq}\thandler {handler} is not in the regenerated table"]
   | some h =>
@@ -34,7 +37,7 @@ def handleMsg (seq handler scn : String) (owner names admin brk : Bool) (esm : S
     let mr := mustReject h env
     let d1 := if mr && !rejected then [s!"DIFF\t{seq}\t{handler} {scn}: table forces a rejection, impl={outcome}"] else []
     let d2 := if base && !mr && rejected then [s!"DIFF\t{seq}\t{handler} {scn}: baseline message must succeed, impl={outcome}"] else []
-    let d3 := if rejected && outcome != "panic" && cleanReject h env && !branchClean then
+    let d3 := if rejected && outcome != "panic" && cleanReject h { env with priceActive := priceS != "0" } && !branchClean then
         [s!"DIFF\t{seq}\t{handler} {scn}: table says no write precedes the failing guard, impl wrote before rejecting"] else []
     let bad := !rejected || !parentEmpty
     let m1 := if !owner && names && !rejected then ["owner_only"] else []
@@ -78,10 +81,10 @@ def handle (st : St) (seq : String) (f : List String) : St × List String :=
   match f with
   | "grd.begin" :: _ => (st', [])
   | ["grd.msg", handler, scn, owner, names, admin, brk, esm, price, base, outcome, pe, bc, vs] =>
-    match b? owner, b? names, b? admin, b? brk, b? price, b? base, b? pe, b? bc, b? vs with
-    | some owner, some names, some admin, some brk, some price, some base, some pe, some bc, some vs =>
+    match b? owner, b? names, b? admin, b? brk, b? base, b? pe, b? bc, b? vs with
+    | some owner, some names, some admin, some brk, some base, some pe, some bc, some vs =>
       (st', handleMsg seq handler scn owner names admin brk esm price base outcome pe bc vs)
-    | _, _, _, _, _, _, _, _, _ => (st', [s!"BAD\t{seq}\tgrd.msg flags"])
+    | _, _, _, _, _, _, _, _ => (st', [s!"BAD\t{seq}\tgrd.msg flags"])
   | ["grd.wasm", variant, chain, kind, sender, base, outcome, de] =>
     match b? base, b? de with
     | some base, some de => (st', handleWasm seq variant chain kind sender base outcome de)
